@@ -29,12 +29,7 @@ Proof.
 Qed.
 
 Lemma span_le c : hcfg_ok c -> heap_end c - heap_start c <= h_size c.
-Proof.
-  intros (HB & Hfit & Hmin). unfold heap_end. unfold heap_start.
-  pose proof NODE_eq as HN. pose proof ALIGN_eq as HA. pose proof MIN_range. rewrite HN, HA in *.
-  assert (H64 : two64 = 18446744073709551616) by reflexivity.
-  destruct (align_forward_spec (h_base c) 16 ltac:(exists 4; split; [lia | reflexivity]) ltac:(lia) ltac:(lia)) as [Hr _]. lia.
-Qed.
+Proof. intros Hc. destruct (heap_geometry c Hc) as (G1 & _ & _ & _ & G5). lia. Qed.
 
 (* ---------- Heap:add_memory_region ---------- *)
 Lemma init_sim c s : hcfg_ok c -> no_marks (h_mem s) ->
@@ -43,19 +38,25 @@ Lemma init_sim c s : hcfg_ok c -> no_marks (h_mem s) ->
         (bins_add empty_bins (heap_end c - heap_start c - NODE) (heap_start c)) /\
     (heap_end c mod 8 = 0 -> forall w, w mod 8 <> 0 -> mget m w = mget (h_mem s) w).
 Proof.
-  intros Hc Hnm. pose proof Hc as (HB & Hfit & Hmin). unfold heap_init, heap_end. unfold heap_start.
+  intros Hc Hnm. pose proof Hc as (HB & Hfit & Hsize0 & Hmin). unfold heap_init, heap_end. unfold heap_start in *.
   pose proof NODE_eq as HN. pose proof ALIGN_eq as HA. pose proof MIN_range as HMr. rewrite HN, HA in *.
   assert (H64 : two64 = 18446744073709551616) by reflexivity.
   destruct (align_forward_spec (h_base c) 16 ltac:(exists 4; split; [lia | reflexivity]) ltac:(lia) ltac:(lia)) as [Hr Hm].
   set (hs := align_forward (h_base c) 16) in *.
   rewrite (w64_small (hs - h_base c)) by lia.
-  rewrite (w64_small (hs - h_base c + 32)) by lia.
-  assert (E : (h_size c <? hs - h_base c + 32) = false) by (apply Z.ltb_ge; lia). rewrite E.
+  change (2 * 32) with 64. rewrite (w64_small 64) by lia.
+  rewrite (w64_small (hs - h_base c + 64)) by lia.
+  assert (E : (h_size c <? hs - h_base c + 64) = false) by (apply Z.ltb_ge; lia). rewrite E.
   rewrite (w64_small (h_size c - (hs - h_base c))) by lia.
   rewrite (w64_small (h_size c - (hs - h_base c) - 32)) by lia.
-  rewrite (w64_small (h_size c - (hs - h_base c) - 32 - 32)) by lia.
-  set (hsz := h_size c - (hs - h_base c) - 32) in *.
-  rewrite (w64_small (hs + hsz)) by (unfold hsz; lia).
+  rewrite (align_down16 (h_size c - (hs - h_base c) - 32)) by lia.
+  set (X := h_size c - (hs - h_base c) - 32) in *.
+  pose proof (Z.mod_pos_bound X 16 ltac:(lia)) as HXm.
+  set (hsz := X - X mod 16) in *.
+  assert (Hhsz16 : hsz mod 16 = 0) by (unfold hsz; Z.div_mod_to_equations; lia).
+  assert (Hhsz32 : 32 <= hsz <= X) by (unfold hsz, X in *; Z.div_mod_to_equations; lia).
+  rewrite (w64_small (hsz - 32)) by lia.
+  rewrite (w64_small (hs + hsz)) by (unfold X in *; lia).
   set (he := hs + hsz). set (sz := hsz - 32).
   replace (hs + hsz - hs - 32) with sz by (unfold sz; lia).
   set (m0 := set_used (mset (mset (mset (mset (mset (mset (h_mem s) hs sz) (hs + 8) 0) (hs + 16) 0) (hs + 24) 0) he 0) (he + 8) hs) he).
@@ -468,10 +469,11 @@ Proof.
   rewrite Hst in Hs1. inversion Hs1; subst s1 l1. exact Hp.
 Qed.
 
-(* ---------- the word-addressed memory is exact when the end node is 8-aligned ----------
+(* ---------- the word-addressed memory is exact ----------
    [mem] maps addresses to 64-bit words; two words at addresses less than 8 apart would overlap in
-   a byte-addressed memory.  When heap_end is a multiple of 8 every word the memory-level model
-   ever writes is 8-aligned, so no two written words overlap: all other addresses keep the initial 0. *)
+   a byte-addressed memory.  The end node is 16-aligned like every other node (repair 23ac203), so
+   every word the memory-level model ever writes is 8-aligned and no two written words overlap:
+   all other addresses keep the initial 0. *)
 Lemma crun_aligned c ops : forall s sa live s' live',
   hcfg_ok c -> hinv c sa live -> SR c s sa -> Forall hop_usize ops -> heap_end c mod 8 = 0 ->
   crun c (s, live) ops = Some (s', live') ->
@@ -485,24 +487,12 @@ Proof.
 Qed.
 
 Theorem heap_mem_writes_aligned_proof : forall c ops s live,
-  hcfg_ok c -> Forall hop_usize ops -> heap_end c mod 8 = 0 ->
+  hcfg_ok c -> Forall hop_usize ops ->
   crun c (heap_init_state, []) ops = Some (s, live) ->
   forall w, w mod 8 <> 0 -> mget (h_mem s) w = 0.
 Proof.
-  intros c ops s live Hc Hd He8 Hcr w Hw.
+  intros c ops s live Hc Hd Hcr w Hw.
+  assert (He8 : heap_end c mod 8 = 0).
+  { destruct (heap_geometry c Hc) as (_ & _ & G3 & _). Z.div_mod_to_equations. lia. }
   rewrite (crun_aligned c ops heap_init_state ha_init_state [] s live Hc (hinv_init c) (SR_init c) Hd He8 Hcr w Hw). reflexivity.
-Qed.
-
-(* ---------- the code's own check of the region size is too weak ----------
-   add_memory_region demands room for one node; with room for one node only (HeapAllocator(48) at an
-   address = 8 mod 16) the size of the start node underflows and alloc(100) "succeeds" *)
-Theorem heap_mem_safe_code_check_refuted_proof : ~ heap_mem_safe_code_check_full.
-Proof.
-  intros H. pose (c := mkhcfg 8 48).
-  assert (Hc : hcfg_code_ok c) by (unfold hcfg_code_ok, c, two64; vm_compute; repeat split; intros Hx; discriminate Hx).
-  assert (Hd : Forall hop_usize [HAlloc 100]) by (constructor; [cbn; unfold usize, two64; lia | constructor]).
-  destruct (crun c (heap_init_state, []) [HAlloc 100]) as [[s live]|] eqn:E; [|vm_compute in E; discriminate E].
-  specialize (H c [HAlloc 100] s live Hc Hd E).
-  vm_compute in E. inversion E; subst s live. clear E.
-  destruct H as (Hin & _). apply Forall_inv in Hin. unfold blk_in, c in Hin. cbn in Hin. lia.
 Qed.
